@@ -12,13 +12,22 @@
 (***************************************************************************)
 EXTENDS FontCycleOps
 
-CONSTANTS GlyphCounts,   \* set of glyph counts to draw from
-          Focus          \* "random":    every field from its full domain (for -simulate)
-                         \* "layout":    exhaustive over outline kind x GSUB kind x GPOS kind x GDEF with rich script lists,
-                         \*              everything else at its default
-                         \* "shapes":    exhaustive over glyf table sizes x raw-table layouts (TrueType), multi-subtable cmap
-                         \* "onefactor": exhaustive, one scalar field at a time through its full domain (extremes
-                         \*              included) x outline kind, everything else at its default
+CONSTANTS GlyphCounts,   \* set of glyph counts to draw from (Focus = "random")
+          IdxLens,       \* CFF INDEX data lengths to hit exactly (around the offset-size switches 255/256, 65535/65536)
+          Dense,         \* TRUE: the version sweep visits every three-decimal rounding boundary, FALSE: every 25th
+          Focus          \* "random": every field from its full domain (for -simulate)
+                         \* "cover":  exhaustive; the first field "group" selects which fields are varied, all others
+                         \*           stay at their defaults:
+                         \*   layout     outline kind x GSUB kind x GPOS kind x GDEF, rich script lists
+                         \*   shapes     glyf table sizes x raw-table layouts (TrueType), multi-subtable cmap
+                         \*   glyphs     composite nesting x instructions of composites nil / empty / even / odd length
+                         \*   index      CFF / CID-keyed CFF: Name, String, CharStrings INDEX with data of exactly IdxLens bytes
+                         \*   big        tables larger than the 1024-byte window of parser.Parser: GDEF class definitions,
+                         \*              script / feature / lookup lists of GSUB and GPOS, name
+                         \*   onefactor  one scalar field at a time through its domain (extremes included) x outline kind
+                         \*   sweep      every scalar with a rounding or threshold rule through its whole small domain:
+                         \*              weight 0..1000 x {regular, bold, neither}, width 0..9, italic angle and underline
+                         \*              metrics in sub-unit steps, versions at the three-decimal boundaries, unitsPerEm
 
 VARIABLES step, cfg
 vars == <<step, cfg>>
@@ -44,7 +53,7 @@ Versions == { <<0, 0>>, <<1, 0>>, <<1, 32768>>, <<2, 66>>, <<1, 4096>>, <<0, 655
 Instants == { <<-226, 4825216>>, <<-125, 14307201>>, <<0, 0>>, <<59, 10144256>>, <<127, 16777215>>, <<128, 0>>,
               <<255, 16777215>>, <<15103, 16007551>> }
 
-FieldNames == << "vary", "wantdom", "kind", "fds", "cmap", "comp", "names", "n", "glyfsize", "rawtabs", "gsub", "gpos", "gdef", "tags", "scripts", "weight", "width", "angle", "fam", "times", "tinst", "frac", "ver", "strs", "upm", "asc", "desc", "gap", "cap", "xh", "ulp", "ult", "perm", "flags", "fin" >>
+FieldNames == << "group", "vary", "wantdom", "kind", "fds", "cmap", "comp", "cinstr", "names", "n", "glyfsize", "rawtabs", "cffidx", "idxlen", "big", "gsub", "gpos", "gdef", "tags", "scripts", "weight", "width", "angle", "fam", "times", "tinst", "frac", "ver", "strs", "upm", "asc", "desc", "gap", "cap", "xh", "ulp", "ult", "perm", "flags", "fin" >>
 Field(i) == FieldNames[i]
 NSteps == Len(FieldNames) + 1
 
@@ -52,14 +61,37 @@ NSteps == Len(FieldNames) + 1
 Scalars == {"weight", "width", "angle", "fam", "times", "tinst", "ver", "strs", "upm", "asc", "desc", "gap", "cap",
             "xh", "ulp", "ult", "perm", "cmap"}
 
-\* full domain of field number i, given the fields chosen so far
+Groups == {"layout", "shapes", "glyphs", "index", "big", "onefactor", "sweep"}
+SweepVars == {"weight", "width", "angle", "ulp", "ult", "ver", "upm"}
+G(c, g) == Focus = "cover" /\ c.group = g
+
+\* 16.16 fractions next to the boundaries between consecutive three-decimal values
+VerSweep == LET ks == IF Dense THEN 0..999 ELSE {k \in 0..999 : k % 25 = 7}
+            IN UNION {{((2 * k + 1) * 32768) \div 1000 + d : d \in {-1, 0, 1}} : k \in ks}
+Sweep(f) == CASE f = "weight" -> 0..1000
+              [] f = "width"  -> 0..9
+              [] f = "angle"  -> -40..40                    \* 2^-20 degree: 16.16 ties at +-8, +-24, +-40
+              [] f = "ulp"    -> -410..-390                 \* quarter units
+              [] f = "ult"    -> -10..10
+              [] f = "ver"    -> {<<1, lo>> : lo \in VerSweep}
+              [] f = "upm"    -> {16, 17, 255, 256, 257, 999, 1000, 1001, 4095, 4096, 4097, 16383, 16384}
+Regular == [k \in 1..6 |-> k = 1]
+BoldOnly == [k \in 1..6 |-> k = 2]
+NoFlag == [k \in 1..6 |-> FALSE]
+
+\* full domain of field f, given the fields chosen so far
 Domain(f, c) ==
-  CASE f = "vary"  -> IF Focus = "onefactor" THEN Scalars ELSE {"-"}
+  CASE f = "group" -> IF Focus = "cover" THEN Groups ELSE {"random"}
+    [] f = "vary"  -> IF G(c, "onefactor") THEN Scalars ELSE IF G(c, "sweep") THEN SweepVars ELSE {"-"}
     [] f = "wantdom"  -> BOOLEAN
-    [] f = "kind"  -> IF Focus = "random" THEN {"ttf", "cff", "cid"} ELSE {"ttf", "cff"}
+    [] f = "kind"  -> IF Focus = "random" \/ G(c, "big") THEN {"ttf", "cff", "cid"}
+                      ELSE IF G(c, "index") THEN {"cff", "cid"} ELSE {"ttf", "cff"}
     [] f = "fds"  -> IF c.kind = "cid" THEN {1, 3} ELSE {1}
     [] f = "cmap"  -> {"4", "12", "none", "multi"}
     [] f = "comp"  -> IF c.kind = "ttf" THEN {0, 1, 3} ELSE {0}
+    \* instructions of composite glyphs (one composite is inserted before the last glyphs so that glyphs follow it):
+    \* absent, present with length 0, even length, odd length
+    [] f = "cinstr" -> IF c.kind = "ttf" THEN {"off", "nil", "empty", "some", "odd"} ELSE {"off"}
     [] f = "names"  -> IF c.kind = "ttf" THEN BOOLEAN ELSE {FALSE}
     [] f = "n"  -> GlyphCounts
     \* exact glyf table sizes around the loca format switch (offsets / 2 in 16 bits) and around 128k
@@ -67,52 +99,72 @@ Domain(f, c) ==
                            THEN {0, 65534, 65536, 131070, 131072, 131074} ELSE {0}
     \* raw cvt/fpgm/gasp/prep tables of lengths 2, 1, 0, 3 mod 4: separate slices or sub-slices of one buffer
     [] f = "rawtabs"  -> IF c.kind = "ttf" THEN {"none", "sep", "shared"} ELSE {"none"}
-    [] f = "gsub"  -> IF Focus = "layout" THEN {"liga", "multi"} ELSE {"none", "liga", "multi"}
+    \* CFF: the INDEX whose data length is tuned to exactly idxlen bytes
+    [] f = "cffidx"   -> IF c.kind = "ttf" THEN {"off"} ELSE IF G(c, "index") THEN {"name", "string", "charstrings"}
+                         ELSE {"off", "name", "string", "charstrings"}
+    [] f = "idxlen"   -> IF c.cffidx = "off" THEN {0}
+                         ELSE IF c.cffidx = "name" \/ Focus = "random" THEN {l \in IdxLens : l < 1000} ELSE IdxLens
+    \* a table that is larger than the parser's 1024-byte window
+    [] f = "big"      -> IF G(c, "big") THEN {"gdef", "scripts", "features", "lookups", "name"}
+                         ELSE {"off", "gdef", "scripts", "features", "lookups", "name"}
+    [] f = "gsub"  -> IF G(c, "layout") THEN {"liga", "multi"} ELSE {"none", "liga", "multi"}
     [] f = "gpos" -> {"none", "pair", "multi"}
     [] f = "gdef" -> BOOLEAN
     [] f = "tags" -> IF c.gsub = "none" /\ c.gpos = "none" THEN {"x"}
                  ELSE IF c.wantdom THEN {"x"} ELSE {"x", "noext", "ambig"}
     [] f = "scripts" -> IF c.tags = "x" THEN {"simple", "multi"} ELSE {"simple"}
-    [] f = "weight" -> {0, 1, 250, 400, 600, 650, 700, 800, 1000}
-    [] f = "width" -> {0, 1, 3, 5, 9}
-    [] f = "angle" -> {0, -12582912, 5, 1605, 9437184}
+    [] f = "weight" -> IF G(c, "sweep") THEN Sweep("weight") ELSE {0, 1, 250, 400, 600, 650, 700, 800, 1000}
+    [] f = "width" -> IF G(c, "sweep") THEN Sweep("width") ELSE {0, 1, 3, 5, 9}
+    [] f = "angle" -> IF G(c, "sweep") THEN Sweep("angle") ELSE {0, -12582912, 5, 1605, 9437184}
     [] f = "fam" -> {"plain", "bold", "italic", "semibold"}
     [] f = "times" -> {"c", "m", "both"}
     [] f = "tinst" -> Instants
     [] f = "frac" -> BOOLEAN
-    [] f = "ver" -> Versions
+    [] f = "ver" -> IF G(c, "sweep") THEN Sweep("ver") ELSE Versions
     [] f = "strs" -> {"ascii", "latin1", "bmp", "astral", "empty"}
-    [] f = "upm" -> {16, 1000, 2048, 16383, 16384}
+    [] f = "upm" -> IF G(c, "sweep") THEN Sweep("upm") ELSE {16, 1000, 2048, 16383, 16384}
     [] f = "asc" -> {-32768, 0, 800, 32767}
     [] f = "desc" -> {-32768, -200, 0, 32767}
     [] f = "gap" -> {-32768, 0, 90, 32767}
     [] f = "cap" -> {1, 700, 32767}
     [] f = "xh" -> {1, 500, 32767}
-    [] f = "ulp" -> {-131072, -400, -261, 0, 131068}      \* quarter units: -32768, -100, -65.25, 0, 32767
-    [] f = "ult" -> {-200, 0, 200, 203, 131068}           \* quarter units: -50, 0, 50, 50.75, 32767
+    [] f = "ulp" -> IF G(c, "sweep") THEN Sweep("ulp") ELSE {-131072, -400, -261, 0, 131068}      \* quarter units: -32768, -100, -65.25, 0, 32767
+    [] f = "ult" -> IF G(c, "sweep") THEN Sweep("ult") ELSE {-200, 0, 200, 203, 131068}           \* quarter units: -50, 0, 50, 50.75, 32767
     [] f = "perm" -> 0..3
-    [] f = "flags" -> {fl \in FlagSets : c.wantdom => InDom(Abs(c, fl))}
+    [] f = "flags" -> IF G(c, "sweep") THEN {Regular, BoldOnly, NoFlag}
+                      ELSE {fl \in FlagSets : c.wantdom => InDom(Abs(c, fl))}
     [] f = "fin" -> {0}     \* one successor only: the terminal state (and its Emit) is reached once per behaviour
 
 Default(f, c) ==
-  CASE f = "vary"  -> "-"      [] f = "wantdom"  -> FALSE   [] f = "kind"  -> "ttf"   [] f = "fds"  -> 1
-    [] f = "cmap"  -> IF Focus = "shapes" THEN "multi" ELSE "4"      [] f = "comp"  -> 0       [] f = "names"  -> c.kind = "ttf"  [] f = "n" -> 30
+  CASE f = "group" -> "random"  [] f = "vary"  -> "-"      [] f = "wantdom"  -> FALSE   [] f = "kind"  -> "ttf"   [] f = "fds"  -> 1
+    [] f = "cmap"  -> IF G(c, "shapes") THEN "multi" ELSE "4"
+    [] f = "comp"  -> 0       [] f = "cinstr" -> "off"   [] f = "names"  -> c.kind = "ttf" /\ ~G(c, "sweep")
+    [] f = "n" -> IF G(c, "big") THEN 700 ELSE IF G(c, "sweep") THEN 2 ELSE IF G(c, "index") THEN 3 ELSE 30
+    [] f = "cffidx" -> "off"  [] f = "idxlen" -> 0  [] f = "big" -> "off"
     [] f = "glyfsize" -> 0  [] f = "rawtabs" -> "none"
-    [] f = "gsub"  -> "liga"   [] f = "gpos" -> "pair"  [] f = "gdef" -> TRUE    [] f = "tags" -> "x"
-    [] f = "scripts" -> IF Focus = "layout" THEN "multi" ELSE "simple"
+    [] f = "gsub"  -> IF G(c, "sweep") THEN "none" ELSE "liga"
+    [] f = "gpos" -> IF G(c, "sweep") THEN "none" ELSE "pair"
+    [] f = "gdef" -> ~G(c, "sweep")    [] f = "tags" -> "x"
+    [] f = "scripts" -> IF G(c, "layout") THEN "multi" ELSE "simple"
     [] f = "weight" -> 400      [] f = "width" -> 5       [] f = "angle" -> 0       [] f = "fam" -> "plain"
     [] f = "times" -> "both"   [] f = "tinst" -> <<59, 10144256>>             [] f = "frac" -> FALSE
     [] f = "ver" -> <<1, 32768>>  [] f = "strs" -> "ascii" [] f = "upm" -> 1000 [] f = "asc" -> 800
     [] f = "desc" -> -200     [] f = "gap" -> 90      [] f = "cap" -> 700     [] f = "xh" -> 500
     [] f = "ulp" -> -400     [] f = "ult" -> 200     [] f = "perm" -> 0
-    [] f = "flags" -> [k \in 1..6 |-> k = 1]      \* regular
+    [] f = "flags" -> Regular
     [] f = "fin" -> 0
 
 Varied(i, c) ==
+  LET f == Field(i) IN
   \/ Focus = "random"
-  \/ Focus = "layout" /\ Field(i) \in {"kind", "gsub", "gpos", "gdef"}
-  \/ Focus = "onefactor" /\ (Field(i) \in {"vary", "kind"} \/ Field(i) = c.vary)
-  \/ Focus = "shapes" /\ Field(i) \in {"kind", "glyfsize", "rawtabs"}
+  \/ f = "group"
+  \/ G(c, "layout") /\ f \in {"kind", "gsub", "gpos", "gdef"}
+  \/ G(c, "shapes") /\ f \in {"kind", "glyfsize", "rawtabs"}
+  \/ G(c, "glyphs") /\ f \in {"comp", "cinstr"}
+  \/ G(c, "index") /\ f \in {"kind", "cffidx", "idxlen"}
+  \/ G(c, "big") /\ f \in {"kind", "big"}
+  \/ G(c, "onefactor") /\ (f \in {"vary", "kind"} \/ f = c.vary)
+  \/ G(c, "sweep") /\ (f = "vary" \/ f = c.vary \/ (f = "flags" /\ c.vary = "weight"))
 
 Choices(i, c) == IF Varied(i, c) THEN Domain(Field(i), c) ELSE {Default(Field(i), c)}
 
@@ -126,7 +178,8 @@ Spec == Init /\ [][Next]_vars
 
 Done == step = NSteps
 Out(c) == [ kind |-> c.kind, fds |-> c.fds, cmap |-> c.cmap, comp |-> c.comp, names |-> c.names, n |-> c.n,
-            glyfsize |-> c.glyfsize, rawtabs |-> c.rawtabs, gsub |-> c.gsub, gpos |-> c.gpos, gdef |-> c.gdef, tags |-> c.tags, scripts |-> c.scripts,
+            cinstr |-> c.cinstr, glyfsize |-> c.glyfsize, rawtabs |-> c.rawtabs,
+            cffidx |-> c.cffidx, idxlen |-> c.idxlen, big |-> c.big, group |-> c.group, gsub |-> c.gsub, gpos |-> c.gpos, gdef |-> c.gdef, tags |-> c.tags, scripts |-> c.scripts,
             reg |-> c.flags[1], bold |-> c.flags[2], ital |-> c.flags[3], obl |-> c.flags[4],
             serif |-> c.flags[5], script |-> c.flags[6],
             weight |-> c.weight, width |-> c.width, angle |-> c.angle, fam |-> c.fam, times |-> c.times,
